@@ -191,8 +191,16 @@ pub fn check_component(bytes: &[u8], label: &str, check_imported: bool) -> (Vec<
                 match wasmparser::Validator::new_with_features(wasmparser::WasmFeatures::all()).validate_all(&wrapper) {
                     Err(e) => {
                         stats.imported_failed += 1;
-                        let m: String = e.message().chars().map(|ch| if ch.is_ascii_alphabetic() { ch } else { '-' }).take(48).collect();
-                        v.push((format!("C08/imported/output-invalid[{m}]"), format!("{label}: the encoding with imported dependencies is invalid: {e}")));
+                        let m = mc_core::msg_class(e.message());
+                        // cause qualifier: does the world export an interface together with an
+                        // interface it uses a type of? (the one listed finding of this family)
+                        let exported: Vec<String> = world.exports.keys().cloned().collect();
+                        let uses_exported = world.exports.values().any(|k| match k {
+                            wac_graph::types::ItemKind::Instance(i) => types[*i].uses.values().any(|u| types[u.interface].id.as_ref().is_some_and(|n| exported.contains(n))),
+                            _ => false,
+                        });
+                        let cause = if uses_exported { "world-exports-an-interface-and-one-it-uses" } else { "other-world-shape" };
+                        v.push((format!("C08/imported/output-invalid[{m}]/{cause}"), format!("{label}: the encoding with imported dependencies is invalid: {e}")));
                     }
                     Ok(wt) => {
                         let wr = wt.as_ref();
